@@ -53,6 +53,16 @@ pub async fn insert_and_maybe_flush(
         let passive_arc = ctx.passive_buffers.add_from(&ctx.memtable).await;
         let flushed_mem = std::mem::replace(&mut ctx.memtable, MemTable::new(capacity));
 
+        // The rotated memtable's events end at a WAL log boundary: only logs below it may be
+        // pruned once this segment is durable (log ids do not follow segment ids).
+        if let Some(wal) = &ctx.wal {
+            if let Some(keep_from) = wal.rotate().await {
+                ctx.segment_lifecycle
+                    .set_wal_cutoff(current_segment_id, keep_from)
+                    .await;
+            }
+        }
+
         debug!(
             target: "sneldb::store",
             segment_id = current_segment_id,
